@@ -463,6 +463,8 @@ def wShadowPkg : Pkg :=
                         { name := "Color", shape := .other, under := some .int }],
                 .consts [{ names := ["Red"], typ := some "Color" }]] } ]
 
+example : ∀ f ∈ wShadowPkg, localsHarmless .rest f.decls = true := by decide
+
 /-- a function-local struct `Client` (non-interface `Order`, struct `Color`) in a file that sorts first: the package is outside
     `validPkg`, yet in the well-formed region for `rest` (`map`, `enum`), and the package-level type of that name is generated
     into the file named after ITS source file — in every selection mode -/
